@@ -1258,8 +1258,10 @@ def r_embedded_region_finalised(ck, P, rid='C20-R8'):
                 if not t.a:
                     continue
                 flds = {a[1] for a in f.atoms(t.a[0]) if a[0] == 'field'}
-                if flds - {'image_common.ref_count'}:
-                    bad = (t, sorted(flds - {'image_common.ref_count'}))
+                # a test of the region's own members (is there a list to release at all?) is part of finalising it
+                own = {q for q in flds if q.startswith(('pixman_region32.', 'pixman_region32_data.', 'pixman_box32.'))}
+                if flds - {'image_common.ref_count'} - own:
+                    bad = (t, sorted(flds - {'image_common.ref_count'} - own))
             if bad:
                 t, fl = bad
                 ck.violation(R, f.name, 'finalisation of %s' % fld, '%s finalises %s only when %s holds; the constructor sets the region up unconditionally and resetting the clip merely clears the flag, so the rectangle list of a clip that was set and later reset is never released' % (f.name, fld.split('.')[-1], ' / '.join(q.split('.')[-1] for q in fl)), c.loc())
